@@ -878,6 +878,8 @@ func (e *AnimEncoder) encodeSubFrame(currCanvas *image.NRGBA, durMS int) error {
 	subImgNone := extractSubImage(currCanvas, rectNone)
 	if blendNone == BlendAlpha && e.opts.Lossless {
 		clearUnchangedPixels(subImgNone, e.prevCanvas, currCanvas, rectNone)
+	} else if blendNone == BlendAlpha {
+		clearNonOpaquePixels(subImgNone, e.prevCanvas, currCanvas, rectNone)
 	}
 	bsNone, err := e.encodeFrame(subImgNone, e.opts.Lossless, e.opts.Quality)
 	if err != nil {
@@ -913,6 +915,8 @@ func (e *AnimEncoder) encodeSubFrame(currCanvas *image.NRGBA, durMS int) error {
 	subImgBG := extractSubImage(currCanvas, rectBG)
 	if blendBG == BlendAlpha && e.opts.Lossless {
 		clearUnchangedPixels(subImgBG, prevDisposedCanvas, currCanvas, rectBG)
+	} else if blendBG == BlendAlpha {
+		clearNonOpaquePixels(subImgBG, prevDisposedCanvas, currCanvas, rectBG)
 	}
 	bsBG, err = e.encodeFrame(subImgBG, e.opts.Lossless, e.opts.Quality)
 	if err != nil {
@@ -978,6 +982,24 @@ func clearUnchangedPixels(sub, prev, curr *image.NRGBA, rect image.Rectangle) {
 	for y := 0; y < rect.Dy(); y++ {
 		for x := 0; x < rect.Dx(); x++ {
 			if prev.NRGBAAt(rect.Min.X+x, rect.Min.Y+y) == curr.NRGBAAt(rect.Min.X+x, rect.Min.Y+y) {
+				sub.SetNRGBA(x, y, color.NRGBA{})
+			}
+		}
+	}
+}
+
+// clearNonOpaquePixels is the lossy counterpart of clearUnchangedPixels.
+// isLossyBlendingPossible accepts a rectangle when every non-opaque target
+// pixel is similar to the previous canvas (same alpha, colour within the
+// quality threshold). Such a pixel must not be stored as it is: blended over
+// the previous pixel it would change the alpha (128 over 128 gives 192), and
+// alpha is always kept exact. Making it (and every identical pixel)
+// transparent keeps the previous pixel, whose alpha is the same.
+func clearNonOpaquePixels(sub, prev, curr *image.NRGBA, rect image.Rectangle) {
+	for y := 0; y < rect.Dy(); y++ {
+		for x := 0; x < rect.Dx(); x++ {
+			c := curr.NRGBAAt(rect.Min.X+x, rect.Min.Y+y)
+			if c.A != 0xFF || prev.NRGBAAt(rect.Min.X+x, rect.Min.Y+y) == c {
 				sub.SetNRGBA(x, y, color.NRGBA{})
 			}
 		}
